@@ -576,17 +576,30 @@ func (i *interpreter) concInt(v value) int64 {
 // "is it this model value?" forks. Bounded by maxConcretize alternatives.
 func (i *interpreter) concretize(sv symV) int64 {
 	tt := i.tt
+	ret := func(m uint64) int64 {
+		if kindSigned(sv.k) {
+			return signExt(m, sv.t.sort.w)
+		}
+		return int64(m)
+	}
 	for n := 0; ; n++ {
 		if n >= i.opts.MaxConcretize {
-			panic(pathAbort{kind: abortCut, msg: "concretisation bound reached"})
+			msg := "concretisation bound reached"
+			if debugOn {
+				msg += "\n" + i.stack()
+			}
+			panic(pathAbort{kind: abortCut, msg: msg})
+		}
+		// If the path condition already pins the value, no decision is made (and no
+		// recorded candidate may be consumed: recorded candidates belong to decisions).
+		m0 := i.modelValue(sv.t)
+		if v, known := i.implied(tt.eq(sv.t, tt.bvConst(m0, sv.t.sort.w))); known && v {
+			return ret(m0)
 		}
 		m := i.candidate(sv.t)
 		c := tt.bvConst(m, sv.t.sort.w)
 		if i.branch(tt.eq(sv.t, c)) {
-			if kindSigned(sv.k) {
-				return signExt(m, sv.t.sort.w)
-			}
-			return int64(m)
+			return ret(m)
 		}
 	}
 }
